@@ -94,7 +94,8 @@ def Ty.isMagic : Ty → Bool
 that contain one of the others are pinned as not covered by the generic theorem (harness/tlbx/nonwf.go) -/
 def Prim.proved : Prim → Bool
   | .unary | .any | .varUint _ | .bigUint _ | .bigInt _ | .grams | .signedCoins | .fixedText | .anycast
-  | .msgAddress | .accountStatus | .accStatusChange | .computeSkipReason | .vmCellSlice | .payloadV1toV4 => true
+  | .msgAddress | .accountStatus | .accStatusChange | .computeSkipReason | .vmCellSlice | .payloadV1toV4
+  | .snake | .bytesSnake | .text => true
   | _ => false
 
 def Prim.wf : Prim → Bool
